@@ -35,7 +35,8 @@ GRID_FLIPS = {  # same-product shapes: the C layer re-initialises only when the 
     60: [(6, 10), (10, 6), (5, 12), (12, 5), (4, 15)],
 }
 BAD_KINDS = ["stats_unknown", "smooth_even", "split_bad", "bbox_overlap", "sel_method", "hp01_wstype",
-             "fit_none", "ptm_coords", "names_len", "ptm_coords_close"]
+             "fit_none", "ptm_coords", "names_len", "ptm_coords_close",
+             "dir_stat_1d", "stats_noncallable", "stats_scalar", "split_dbad", "interp_like_bad", "fit_gauss_none"]
 WRITER_FMTS = ["swan", "swan_gz", "octopus", "json", "ww3", "netcdf", "funwave", "orcaflex"]
 NATIVE_FMTS = ["ww3", "ncswan", "wwm"]
 
@@ -155,6 +156,16 @@ def _gen_bad(rng, meta):
         kinds = [k for k in kinds if k != "ptm_coords"]
     if not any(k == "site" for k, _ in recipe["dims"]) or recipe.get("nd", 0) < 3:
         kinds = [k for k in kinds if k != "ptm_coords_close"]
+    if recipe.get("nd", 0) > 0:
+        kinds = [k for k in kinds if k != "dir_stat_1d"]
+    else:
+        kinds = [k for k in kinds if k != "split_dbad"] + ["dir_stat_1d"] * 2
+    if meta["kind"] != "ds" and "fit_gauss_none" in kinds:
+        pass
+    bad = {"k": rng.choice(kinds), "via": "da" if meta["kind"] == "da" else rng.choice(["da", "ds"])}
+    if bad["k"] == "dir_stat_1d":
+        bad["stat"] = rng.choice(["dm", "dspr", "dpm", "dp", "dpspr", "fdspr", "momd", "uss_x", "uss_y", "crsd"])
+    return bad
     return {"k": rng.choice(kinds), "via": "da" if meta["kind"] == "da" else rng.choice(["da", "ds"])}
 
 
@@ -327,7 +338,31 @@ def gen_plan(rng, tier="quick", prop="C18"):
             elif fname == "tma":
                 fk["dep"] = rng.choice([10.0, 40.0])
             dk = {"dir": [float(x) for x in np.arange(0, 360, 360 / nd)], "dm": rng.choice([0.0, 45.0, 200.0, 350.0]), "dspr": rng.choice([10.0, 25.0, 40.0])}
-            steps.append({"op": "construct", "freq_name": fname, "dir_name": "cartwright", "fk": fk, "dk": dk, "defaults": rng.random() < 0.15})
+            dname = "cartwright"
+            nsite = rng.choice([2, 3])
+            as_da = rng.random() < 0.35        # parameters given per site as DataArrays
+            if as_da:
+                fk["hs"] = {"__da__": [round(rng.uniform(0.5, 5.0), 2) for _ in range(nsite)]}
+                fk["fp"] = {"__da__": [rng.choice([0.06, 0.08, 0.1]) for _ in range(nsite)]}
+                dk["dm"] = {"__da__": [rng.choice([10.0, 45.0, 200.0, 350.0]) for _ in range(nsite)]}
+            if rng.random() < 0.25:
+                # frequency-dependent spreading of Bunney et al. (2014)
+                dname = "asymmetric"
+                dk.update({"freq": list(fk["freq"]), "dpm": rng.choice([30.0, 190.0, 340.0]), "dpspr": rng.choice([8.0, 20.0]), "fm": rng.choice([0.09, 0.12]), "fp": rng.choice([0.06, 0.08])})
+                if dk["dm"] == 0.0:
+                    dk["dm"] = 20.0
+                if as_da:
+                    dk["dpm"] = {"__da__": [rng.choice([30.0, 190.0, 340.0]) for _ in range(nsite)]}
+                    for k in ("dspr", "dpspr", "fm", "fp"):
+                        dk[k] = {"__da__": [dk[k]] * nsite}
+            if rng.random() < 0.2 and fname in ("jonswap", "gaussian"):
+                # shape chosen per site by a boolean array
+                fname = "conditional"
+                fk.update({"gamma": 2.0, "gw": 0.02, "cond": {"__da__": [bool(rng.getrandbits(1)) for _ in range(nsite)], "bool": True}})
+                if as_da is False:
+                    fk["hs"] = {"__da__": [round(rng.uniform(0.5, 5.0), 2) for _ in range(nsite)]}
+                    fk["fp"] = {"__da__": [rng.choice([0.06, 0.08, 0.1]) for _ in range(nsite)]}
+            steps.append({"op": "construct", "freq_name": fname, "dir_name": dname, "fk": fk, "dk": dk, "defaults": rng.random() < 0.15})
         elif kind == "reconstruct":
             cands = [s for s in wsl if metas[s]["kind"] == "ds" and metas[s]["recipe"]["nd"] >= 3 and metas[s]["backing"] != "dask"
                      and int(np.prod([n for _, n in metas[s]["recipe"]["dims"]] or [1])) <= 3 and metas[s]["recipe"]["nf"] * metas[s]["recipe"]["nd"] <= 64]
@@ -545,16 +580,28 @@ def native_array(shape, seed, flat=False):
     return D._bumps(rng, shape[0], shape[1], True, 1)[0].astype("float32")
 
 
+def _mat(v):
+    """JSON form of a construct_partition keyword value -> the object the caller passes."""
+    if isinstance(v, dict) and "__da__" in v:
+        import xarray as xr
+
+        vals = np.asarray(v["__da__"], dtype=bool if v.get("bool") else float)
+        return xr.DataArray(vals, dims=(v.get("dim", "site"),), coords={v.get("dim", "site"): np.arange(1, len(vals) + 1)})
+    if isinstance(v, list):
+        return np.asarray(v, dtype=float)
+    return v
+
+
 def construct_kwargs(store, st):
     """Caller-owned keyword dictionaries (with caller-owned arrays inside) for construct_partition."""
     fk = store.get("dict", {"__construct_f": st["fk"]})
     dk = store.get("dict", {"__construct_d": st["dk"]})
     if "freq" not in fk:
         src = fk.pop("__construct_f")
-        fk.update({k: (np.asarray(v, dtype=float) if isinstance(v, list) else v) for k, v in src.items()})
+        fk.update({k: _mat(v) for k, v in src.items()})
     if "dir" not in dk:
         src = dk.pop("__construct_d")
-        dk.update({k: (np.asarray(v, dtype=float) if isinstance(v, list) else v) for k, v in src.items()})
+        dk.update({k: _mat(v) for k, v in src.items()})
     return fk, dk
 
 
@@ -631,6 +678,21 @@ def run_bad(obj, aux, bad, extra=None):
         return spec.partition.ptm1(wspd=wspd2, wdir=w["wdir"], dpt=w["dpt"])
     if k == "names_len":
         return spec.stats(["hs", "tp"], names=["a"])
+    if k == "dir_stat_1d":       # a directional statistic asked of frequency spectra
+        st = bad.get("stat", "dm")
+        if st == "crsd":
+            return spec.crsd(theta=90.0)
+        return getattr(spec, st)()
+    if k == "stats_noncallable":
+        return spec.stats(["hs", "freq"])
+    if k == "stats_scalar":
+        return spec.stats("hs")
+    if k == "split_dbad":
+        return spec.split(dmin=200.0, dmax=100.0)
+    if k == "interp_like_bad":
+        return spec.interp_like(None)
+    if k == "fit_gauss_none":
+        return spec.fit_gaussian(spectra=False, params=False)
     if k == "ptm_coords_close":
         # wind/depth arrays from different sources: site coordinates agree to single precision only
         if extra is None or "dpt32" not in extra:
@@ -763,7 +825,11 @@ SAMPLES = [
     ("read_triaxys", "triaxys.DIRSPEC", {}), ("read_triaxys", "triaxys.NONDIRSPEC", {}),
     ("read_octopus", "octopusfile.oct", {}), ("read_json", "jsonfile.json", {}), ("read_funwave", "funwavefile.txt", {}),
     ("read_ww3", "ww3file.nc", {}), ("read_era5", "era5file.nc", {}), ("read_ww3_station", "ww3station.spec", {}),
-    ("read_spotter", "spotter_20210929b.csv", {}), ("read_spotter", "spotter_20180214.json", {}),
+    ("read_spotter", "spotter_20210929b.csv", {}), ("read_spotter", "spotter_20180214.json", {}), ("read_spotter", "spotter_20210929.csv", {}),
+    ("read_datawell", "datawell/*.spt", {}), ("open:swan", "swanfile.spec", {}), ("open:ww3", "ww3file.nc", {}), ("open:json", "jsonfile.json", {}),
+    ("open:octopus", "octopusfile.oct", {}), ("open:funwave", "funwavefile.txt", {}), ("open:triaxys", "triaxys.DIRSPEC", {}), ("open:era5", "era5file.nc", {}),
+    ("open:ww3_station", "ww3station.spec", {}), ("open:spotter", "spotter_20180214.json", {}), ("open:ndbc_ascii", "ndbc/41010w2019part.txt.gz", {}),
+    ("read_obscape", "obscape/19800102_123456_Obscape2d_course.csv", {}),
     ("read_obscape", "obscape/19900102_123456_Obscape2d_fine.csv", {}),
     ("read_ndbc_ascii", "ndbc/41010w2019part.txt.gz", {}),
 ]
@@ -800,6 +866,11 @@ def read_sample(repo, st, fs_root):
             write_triaxys(path, st["nf"], st["df"], st["ddir"], st["seed"], st["directional"])
         return ws.read_triaxys(path)
     path = os.path.join(repo, "tests", "sample_files", st["file"])
+    if st["reader"].startswith("open:"):
+        import xarray as xr     # the reader reached through the xarray backend entry point the package registers
+
+        with xr.open_dataset(path, engine=st["reader"][5:], **st.get("kw", {})) as out:
+            return out.load()
     out = getattr(ws, st["reader"])(path, **st.get("kw", {}))
     return out.load() if hasattr(out, "load") else out
 
@@ -831,8 +902,8 @@ def ref_handler(req):
             res = run_bad(obj, aux, req["bad"])
         elif kind == "construct":
             st = req["st"]
-            fk = {k: (np.asarray(v, dtype=float) if isinstance(v, list) else v) for k, v in st["fk"].items()}
-            dk = {k: (np.asarray(v, dtype=float) if isinstance(v, list) else v) for k, v in st["dk"].items()}
+            fk = {k: _mat(v) for k, v in st["fk"].items()}
+            dk = {k: _mat(v) for k, v in st["dk"].items()}
             res = run_construct(st, fk, dk)
         elif kind == "reconstruct":
             res = run_reconstruct(F.thaw(req["obj"]), req["st"])
@@ -908,8 +979,8 @@ def execute(arg):
             kind2 = st2["op"]
             try:
                 if kind2 == "construct":
-                    fk2 = {k: (np.asarray(v, dtype=float) if isinstance(v, list) else v) for k, v in st2["fk"].items()}
-                    dk2 = {k: (np.asarray(v, dtype=float) if isinstance(v, list) else v) for k, v in st2["dk"].items()}
+                    fk2 = {k: _mat(v) for k, v in st2["fk"].items()}
+                    dk2 = {k: _mat(v) for k, v in st2["dk"].items()}
                     mine, raised = cmp.canon(run_construct(st2, fk2, dk2)), None
                     req2 = {"kind": "construct", "st": st2}
                 else:
